@@ -37,6 +37,8 @@ def run(name):
         verdict = "VIOLATION no-failing-input-found (proof obligation / correspondence broke)"
     elif "VIOLATION" in out:
         verdict = "VIOLATION with failing input"
+    elif "rc=0" in out and meta.get("expected") == "silent":
+        verdict = "silent, as expected (behaviour-preserving on this tree, see coordinator_note)"
     elif "rc=0" in out:
         verdict = "MISSED (check passed)"
     else:
